@@ -16,6 +16,10 @@ def bucket(e, entry):
     if fr:
         f = fr[-1]
         where = f.filename.split("/jedi/", 1)[-1] + ":" + f.name
+        if "/parso/" in tb[-1].filename and tb[-1] is not f:
+            # raised inside the parser library: name its frame too, so that two different parso failures reached
+            # through the same jedi function stay two signatures
+            where += ">parso/" + tb[-1].filename.split("/parso/", 1)[-1] + ":" + tb[-1].name
     else:
         f = tb[-1] if tb else None
         where = (Path(f.filename).name + ":" + f.name) if f else "?"
